@@ -5,7 +5,7 @@ from pyvc.objs import make_obj
 
 META = {
     "explanation": "composition_keys, composition_violation, check_balance (iff), the constructor's default checks (accepted iff balanced), composition_balance_vectors, mass/charge violation helpers and obeys_* proved for every composition value and stoichiometric coefficient at fixed system shapes (substances with partly missing keys incl. charge-only and empty compositions, inactive parts, two reactions)",
-    "trusted_base": ["Lean lemma invariant_of_balanced (lemmas/C05_invariant.lean) links balanced reactions to exact linear invariants of any rate vector"],
+    "trusted_base": ["Lean 4 kernel + Mathlib for lemmas/C05_invariant.lean (re-checked on every run: C05.lemma.*): for ANY numbers of reactions and substances, w.(N^T r) = sum_r r_r (w.nu_r), hence w is an invariant of every rate vector when every reaction conserves the key", "assumed contract 5.6 (SymbolicSys.from_callback) for the right-hand side obtained through get_odesys"],
     "not_decided": ["numerical integration keeps the invariants to solver tolerance (external integrator; bounded stand-in, thorough tier)", "linear_dependencies analytic elimination (sympy rref; bounded stand-in)"],
     "assumptions": ["system shapes are fixed per harness (shape-bounded); values are unbounded integers/reals"],
 }
@@ -204,3 +204,77 @@ def _(v):
     v.prove("violation_entries", SP.conj([v.eq(viol[j], violation(ds[0], comp, ck_)) for j, ck_ in enumerate(CKS)]))
     r = v.call(rsys.check_balance)
     v.prove("true_iff_balanced", SP.iff(r, balanced(ds, comp)) if v.symbolic else True)
+
+
+@harness("C05", "lemma", functions=["lemmas/C05_invariant.lean: weighted_rhs_is_weighted_violation, invariant_of_balanced"], kind="lemma", samples=0)
+def _(v):
+    """shape-independent step of the invariant clause, checked by the Lean kernel on every run (no sorry/axiom: scanned)"""
+    v.prove_lean("invariant_of_balanced_any_shape", "lemmas/C05_invariant.lean", theorems=("weighted_rhs_is_weighted_violation", "invariant_of_balanced"))
+
+
+@harness("C05", "invariants_of_the_real_right_hand_side", functions=["chempy.kinetics.ode:get_odesys", "chempy.kinetics.ode:get_odesys.<locals>.dydt", RS + ":ReactionSystem.rates",
+                                                                   RS + ":ReactionSystem.composition_balance_vectors"], kind="shape-bounded", samples=0, max_paths=400)
+def _(v):
+    """the vectors REPORTED with the ODE system are invariants of the right-hand side the ODE system actually has (ReactionSystem.rates through
+    get_odesys, formula-defined species incl. ions, symbolic rate constants and coefficients): w . f(c) == sum_r rate_r * (violation of r), for every
+    concentration vector; zero for the balanced instance; and with a feed (cstr) no invariant, elimination or safe step is offered"""
+    from collections import OrderedDict
+    from chempy.chemistry import Reaction, Substance
+    from chempy.reactionsystem import ReactionSystem
+    from chempy.kinetics.ode import get_odesys
+    from contracts.C04 import FakeSymbolicSys
+    names = ["Fe+3", "SCN-", "FeSCN+2", "H2O2", "H2O", "O2", "e-"]
+    subs = OrderedDict((k, Substance.from_formula(k)) for k in names)
+    comp = {k: dict(s.composition) for k, s in subs.items()}
+    v.prove("compositions_as_written", comp == {"Fe+3": {26: 1, 0: 3}, "SCN-": {16: 1, 6: 1, 7: 1, 0: -1}, "FeSCN+2": {26: 1, 16: 1, 6: 1, 7: 1, 0: 2},
+                                                 "H2O2": {1: 2, 8: 2}, "H2O": {1: 2, 8: 1}, "O2": {8: 2}, "e-": {0: -1}})
+    a, b, c = v.int("a", lo=1, hi=3), v.int("b", lo=1, hi=3), v.int("c", lo=1, hi=3)
+    k = [v.real("k%d" % i, lo=0, hi=9) for i in range(4)]
+    lay = [({"Fe+3": 1, "SCN-": 1}, {"FeSCN+2": 1}), ({"FeSCN+2": 1}, {"Fe+3": 1, "SCN-": 1}), ({"H2O2": a}, {"H2O": b, "O2": c}), ({"Fe+3": 1, "e-": 1}, {"FeSCN+2": 1})]
+    rxns = [Reaction(dict(r), dict(p), kk, checks=()) for (r, p), kk in zip(lay, k)]
+    rsys = ReactionSystem(rxns, subs, checks=())
+    odesys, extra = v.call(get_odesys, rsys, SymbolicSys=FakeSymbolicSys)
+    y = dict(zip(odesys.names, odesys.dep))
+    inv, inv_names = odesys.linear_invariants, odesys.linear_invariant_names
+    keys = sorted({ck for cc in comp.values() for ck in cc})
+    v.prove("one_reported_vector_per_composition_key", inv is not None and [str(x) for x in keys] == list(inv_names) and len(inv) == len(keys))
+    rate = []
+    for (r, p), kk in zip(lay, k):
+        cp = 1
+        for key, nu in r.items():
+            cp = cp * SP.spow(y[key], nu)
+        rate.append(kk * cp)
+    for row, ck in zip(inv, keys):
+        lhs = sum(row[j] * odesys.exprs[j] for j in range(len(names)))
+        viol = [sum(nu * comp[s].get(ck, 0) for s, nu in p.items()) - sum(nu * comp[s].get(ck, 0) for s, nu in r.items()) for (r, p) in lay]
+        v.prove("reported_vector_of_key_%d_against_the_real_rhs" % ck, v.eq(lhs, sum(rt * vi for rt, vi in zip(rate, viol))))
+    # the fourth reaction is unbalanced (sulfur, carbon, nitrogen, charge) and the third unless a == b == 2c ... : the callback is offered iff all balance
+    bal = SP.conj([a == b, a == 2 * c])   # H: 2a = 2b, O: 2a = b + 2c
+    v.prove("safe_step_and_elimination_only_for_balanced_systems", (extra["max_euler_step_cb"] is None) and (extra["linear_dependencies"] is None))
+    rsys_b = ReactionSystem(rxns[:3], subs, checks=())
+    ode_b, extra_b = v.call(get_odesys, rsys_b, SymbolicSys=FakeSymbolicSys)
+    offered = extra_b["linear_dependencies"] is not None
+    v.prove("elimination_offered_iff_every_reaction_balanced", SP.iff(offered, bal) if not isinstance(bal, bool) else offered == bal)
+    ode_c, extra_c = v.call(get_odesys, rsys_b, cstr=True, SymbolicSys=FakeSymbolicSys)
+    v.prove("with_a_feed_nothing_is_reported_as_conserved", ode_c.linear_invariants is None and ode_c.linear_invariant_names is None
+            and extra_c["linear_dependencies"] is None and extra_c["max_euler_step_cb"] is None)
+
+
+@harness("C05", "composition_balance_vectors.follow_the_current_substance_order", functions=[RS + ":ReactionSystem.composition_balance_vectors", RS + ":ReactionSystem.sort_substances_inplace"],
+         kind="shape-bounded", samples=10)
+def _(v):
+    """the vectors are read off the system as it IS: after the substances have been re-ordered (or a system has been extended) the columns
+    follow the new order -- no state from an earlier call"""
+    from collections import OrderedDict
+    from chempy.reactionsystem import ReactionSystem
+    subst, comp = substances(v)
+    rxns, ds = reactions(v)
+    order = ["C", "A", "D", "B"]
+    rsys = ReactionSystem(rxns, OrderedDict((k, subst[k]) for k in order), checks=())
+    A1, ck1 = v.call(rsys.composition_balance_vectors)
+    v.prove("columns_in_given_order", SP.conj([v.eq(A1[i][j], comp[s].get(k, 0)) for i, k in enumerate(CKS) for j, s in enumerate(order)]))
+    v.call(rsys.sort_substances_inplace)
+    v.prove("sorted_now", list(rsys.substances) == sorted(order))
+    A2, ck2 = v.call(rsys.composition_balance_vectors)
+    v.prove("columns_follow_the_new_order", SP.conj([v.eq(A2[i][j], comp[s].get(k, 0)) for i, k in enumerate(CKS) for j, s in enumerate(sorted(order))]))
+    v.prove("keys_unchanged", list(ck1) == CKS and list(ck2) == CKS)
